@@ -185,7 +185,11 @@ def build(t, sv, ctx, flatten):
 
 
 class Numbering:
-    """mirror of Lifecycle.compileServer: channel / node indices of the real queues / threads"""
+    """mirror of Lifecycle.compileServer (chansT / nodesT): channel / node indices of the real queues / threads.
+    Channels: 0 `_q_in`, 1 `_q_out`, then per subtree: sequence = the queue between the members; ensemble = in/out
+    queue of member a, in/out queue of member b; switch = the members' input queues; then the members' own queues
+    (a before b); last = onboarding buffer.  Nodes: members (a before b), then `_dequeue`, `_enqueue`; then gather,
+    onboarding thread."""
 
     def __init__(self):
         self.q2c = {}
@@ -222,17 +226,17 @@ def label(t, sv, members, qs, N):
         (s,) = members
         N.chan(s._qins[0])
         N.chan(s._qouts[0])
-        label(t[1], sv + 1, [s._servlets[0]], [], N)
         N.chan(s._qins[1])
         N.chan(s._qouts[1])
+        label(t[1], sv + 1, [s._servlets[0]], [], N)
         label(t[2], sv + 1 + tsize(t[1]), [s._servlets[1]], [], N)
         N.node(s._threads[0], (sv, 100))
         N.node(s._threads[1], (sv, 101))
     else:
         (s,) = members
         N.chan(s._qins[0])
-        label(t[1], sv + 1, [s._servlets[0]], [], N)
         N.chan(s._qins[1])
+        label(t[1], sv + 1, [s._servlets[0]], [], N)
         label(t[2], sv + 1 + tsize(t[1]), [s._servlets[1]], [], N)
         N.node(s._thread_enqueue, (sv, 101))
 
